@@ -1,0 +1,60 @@
+//go:build verif
+
+package internal
+
+import "time"
+
+// Composition harnesses for the deductive verifier in /verif (govc). Each one states a
+// round-trip law of the wire primitives as straight-line code over the real functions; its
+// contract lives in contracts_verif.go. Nothing here is compiled without the verif tag.
+
+func verifDepthRoundTrip(d Depth) (Depth, error) {
+	return ParseDepth(d.String())
+}
+
+func verifOverwriteRoundTrip(b bool) (bool, error) {
+	return ParseOverwrite(FormatOverwrite(b))
+}
+
+func verifStatusRoundTrip(code int, text string) (Status, error) {
+	in := Status{Code: code, Text: text}
+	b, err := in.MarshalText()
+	if err != nil {
+		return Status{}, err
+	}
+	var out Status
+	err = out.UnmarshalText(b)
+	return out, err
+}
+
+func verifETagXMLRoundTrip(s string) (string, error) {
+	b, err := ETag(s).MarshalText()
+	if err != nil {
+		return "", err
+	}
+	var out ETag
+	err = out.UnmarshalText(b)
+	return string(out), err
+}
+
+func verifTimeRoundTrip(t time.Time) (time.Time, error) {
+	in := Time(t)
+	b, err := in.MarshalText()
+	if err != nil {
+		return time.Time{}, err
+	}
+	var out Time
+	err = out.UnmarshalText(b)
+	return time.Time(out), err
+}
+
+func verifHrefRoundTrip(p string) (string, error) {
+	in := Href{Path: p}
+	b, err := in.MarshalText()
+	if err != nil {
+		return "", err
+	}
+	var out Href
+	err = out.UnmarshalText(b)
+	return out.Path, err
+}
